@@ -1,10 +1,9 @@
-import re
 import string
 from enum import Enum
 from typing import Any, Optional
 
 from flamapy.core.transformations import ModelToText
-from flamapy.core.models.ast import ASTOperation
+from flamapy.core.models.ast import ASTOperation, Node
 from flamapy.metamodels.fm_metamodel.models import FeatureModel, Feature, Constraint
 
 
@@ -103,7 +102,8 @@ def parse_group_type(feature: Feature) -> Optional[str]:
     elif feature.is_cardinality_group():
         rel = next((r for r in feature.get_relations() if r.is_cardinal()), None)
         if rel is not None:
-            group_type = str(rel.card_min) + ".." + str(rel.card_max)
+            card_max = '*' if rel.card_max == -1 else str(rel.card_max)
+            group_type = str(rel.card_min) + ".." + card_max
     elif feature.is_mutex_group():
         group_type = 'mux'
     return group_type
@@ -116,16 +116,35 @@ def read_constraints(const: Constraint) -> str:
     return result
 
 
+CLAFER_OPERATORS = {ASTOperation.NOT: 'not',
+                    ASTOperation.AND: '&&',
+                    ASTOperation.OR: '||',
+                    ASTOperation.XOR: 'xor',
+                    ASTOperation.IMPLIES: '=>',
+                    ASTOperation.REQUIRES: '=>',
+                    ASTOperation.EQUIVALENCE: '<=>'}
+
+
 def serialize_constraint(ctc: Constraint) -> str:
-    ctc_str = ctc.ast.pretty_str()
-    ctc_str = re.sub(fr'\b{ASTOperation.NOT.value}\b', 'not', ctc_str)
-    ctc_str = re.sub(fr'\b{ASTOperation.AND.value}\b', '&&', ctc_str)
-    ctc_str = re.sub(fr'\b{ASTOperation.OR.value}\b', '||', ctc_str)
-    ctc_str = re.sub(fr'\b{ASTOperation.IMPLIES.value}\b', '=>', ctc_str)
-    ctc_str = re.sub(fr'\b{ASTOperation.EQUIVALENCE.value}\b', '<=>', ctc_str)
-    ctc_str = re.sub(fr'\b{ASTOperation.REQUIRES.value}\b', '=>', ctc_str)
-    ctc_str = re.sub(fr'\b{ASTOperation.EXCLUDES.value}\b', '=> not', ctc_str)
-    return f'[{ctc_str}]'
+    return f'[{_serialize_node(ctc.ast.root)}]'
+
+
+def _serialize_operand(node: Node) -> str:
+    result = _serialize_node(node)
+    return f'({result})' if node.is_op() else result
+
+
+def _serialize_node(node: Node) -> str:
+    """Clafer syntax of a logical constraint, written from the syntax tree."""
+    if node.is_term():
+        return safename(str(node.data))
+    if node.data == ASTOperation.NOT:
+        return f'{CLAFER_OPERATORS[node.data]} {_serialize_operand(node.left)}'
+    left = _serialize_operand(node.left)
+    right = _serialize_operand(node.right)
+    if node.data == ASTOperation.EXCLUDES:
+        return f'{left} => not {right}'
+    return f'{left} {CLAFER_OPERATORS[node.data]} {right}'
 
 
 def attributes_definition(feature_model: FeatureModel) -> str:
@@ -136,7 +155,7 @@ def attributes_definition(feature_model: FeatureModel) -> str:
     if attributes:
         result = f'abstract {ATTRIBUTED_FEATURE}\n'
         for name, v_type in attributes.items():
-            result += f'\t{name} -> {v_type}\n'
+            result += f'\t{safename(name)} -> {v_type}\n'
     return result
 
 
